@@ -294,6 +294,12 @@ def main(check_id, tier, argv=None):
     chunk = budget.get("chunk", 8)
     idx_chunks = [list(range(a, min(a + chunk, n_runs))) for a in range(0, n_runs, chunk)]
     os.makedirs(core.SCRATCH, exist_ok=True)
+    # worlds of earlier runs whose process is gone (e.g. killed by a timeout) are removed
+    for d in os.listdir(core.SCRATCH):
+        if d.isdigit() and not os.path.exists("/proc/%s" % d):
+            import shutil
+
+            shutil.rmtree(os.path.join(core.SCRATCH, d), ignore_errors=True)
 
     agg = {"runs": 0, "hashes": {}, "viol": [], "fired": {}, "kinds": {}, "probes": {}, "points": 0, "ops": 0,
            "nodes": 0, "crashes": 0, "digests": set(), "samples": [], "discarded": 0, "errors": [],
